@@ -318,6 +318,76 @@ func (k *kvCfg3) watch(ctx context.Context, key string, replay bool, sink func(s
 	return nil
 }
 
+// ---- v3 transaction store: one log per target; the record of a key is the first entry of the log of a target
+// named after the key (a fixed entry key makes a second Create of the same record fail with AlreadyExists)
+type kvTx3 struct {
+	s   txv3.Store
+	ids []string
+}
+
+func tx3Target(key string) configapiv3.Target {
+	return configapiv3.Target{ID: configapiv3.TargetID(key), Type: "synth", Version: "1.0.0"}
+}
+func tx3Tag(t *configapiv3.Transaction) uint64 { return uint64(t.Values["/foo"].Index) }
+func tx3SetTag(t *configapiv3.Transaction, tag uint64) {
+	t.Values = map[string]configapiv3.PathValue{"/foo": {Path: "/foo", Index: configapiv3.Index(tag)}}
+}
+func (k *kvTx3) name() string         { return "v3/transaction" }
+func (k *kvTx3) keys() []string       { return k.ids }
+func (k *kvTx3) perWatchStream() bool { return false }
+func (k *kvTx3) create(ctx context.Context, key string, tag uint64) (*rec, error) {
+	t := &configapiv3.Transaction{ID: configapiv3.TransactionID{Target: tx3Target(key)}}
+	t.Key = "the-record"
+	tx3SetTag(t, tag)
+	if err := k.s.Create(ctx, t); err != nil {
+		return nil, err
+	}
+	return &rec{obj: t, ver: t.Version, tag: tag, idx: uint64(t.ID.Index)}, nil
+}
+func (k *kvTx3) get(ctx context.Context, key string) (*rec, error) {
+	t, err := k.s.Get(ctx, configapiv3.TransactionID{Target: tx3Target(key), Index: 1})
+	if err != nil {
+		return nil, err
+	}
+	return &rec{obj: t, ver: t.Version, tag: tx3Tag(t), idx: uint64(t.ID.Index)}, nil
+}
+func (k *kvTx3) update(ctx context.Context, r *rec, tag uint64, status bool) (*rec, error) {
+	b, _ := r.obj.(*configapiv3.Transaction).Marshal()
+	t := &configapiv3.Transaction{}
+	_ = t.Unmarshal(b)
+	t.Version = r.ver
+	tx3SetTag(t, tag)
+	var err error
+	if status {
+		err = k.s.UpdateStatus(ctx, t)
+	} else {
+		err = k.s.Update(ctx, t)
+	}
+	if err != nil {
+		return nil, err
+	}
+	return &rec{obj: t, ver: t.Version, tag: tag, idx: uint64(t.ID.Index)}, nil
+}
+func (k *kvTx3) watch(ctx context.Context, key string, replay bool, sink func(string, uint64)) error {
+	ch := make(chan configapiv3.TransactionEvent)
+	var opts []txv3.WatchOption
+	if replay {
+		opts = append(opts, txv3.WithReplay())
+	}
+	if key != "" {
+		opts = append(opts, txv3.WithTransactionID(configapiv3.TransactionID{Target: tx3Target(key), Index: 1}))
+	}
+	if err := k.s.Watch(ctx, ch, opts...); err != nil {
+		return err
+	}
+	go func() {
+		for ev := range ch {
+			sink(string(ev.Transaction.ID.Target.ID), ev.Transaction.Version)
+		}
+	}()
+	return nil
+}
+
 // ---------------------------------------------------------------- history + porcupine model
 
 type c15In struct {
@@ -415,6 +485,9 @@ func c15Stores(kind string, client *test.Client, keys []string) (kv, error) {
 	case "v3/configuration":
 		s, err := cfgv3.NewAtomixStore(client)
 		return &kvCfg3{s, keys}, err
+	case "v3/transaction":
+		s, err := txv3.NewAtomixStore(client)
+		return &kvTx3{s, keys}, err
 	}
 	return nil, fmt.Errorf("unknown store %s", kind)
 }
@@ -722,6 +795,154 @@ func c15Run(c *fw.Case, kind string) {
 	}
 }
 
+// c15ReplayRace aims at the window inside Watch between "read the current state for the replay" and "start
+// listening": per round, watchers with replay (all records / one record, on the writer's store object and on another
+// one) subscribe with a slow consumer - which stretches the replay over several milliseconds - while one writer
+// updates every record exactly once, so that each of those updates is the last write to its record in the round.
+// After the writer has finished every watcher must (eventually) have been shown that last version of every record
+// it is entitled to. Clock-free verdict: the wait is a watchdog, followed by a fresh read of the store.
+func c15ReplayRace(c *fw.Case, kind string, rounds int) {
+	client := test.NewClient()
+	defer client.Close()
+	r := c.Rng.Fork("replayrace-" + kind)
+	var keys []string
+	for i := 0; i < 5; i++ {
+		keys = append(keys, fmt.Sprintf("rr%d-%d", c.Index, i))
+	}
+	a, err := c15Stores(kind, client, keys)
+	if err != nil {
+		c.Inconclusive(err.Error())
+		return
+	}
+	b, err := c15Stores(kind, client, keys)
+	if err != nil {
+		c.Inconclusive(err.Error())
+		return
+	}
+	ctx := context.Background()
+	var tag uint64 = 1 << 32
+	for _, k := range keys {
+		tag++
+		if _, err := b.create(ctx, k, tag); err != nil {
+			c.Inconclusive("create: " + err.Error())
+			return
+		}
+	}
+	time.Sleep(150 * time.Millisecond) // both store objects have their streams registered on every partition
+	for round := 0; round < rounds; round++ {
+		type rw struct {
+			key    string
+			store  string
+			mu     sync.Mutex
+			seen   map[string]uint64
+			cancel context.CancelFunc
+		}
+		var ws []*rw
+		// pre-drawn pauses: the sink runs in the store's goroutines
+		pauses := make([]time.Duration, 64)
+		for i := range pauses {
+			pauses[i] = time.Duration(100+r.Intn(1900)) * time.Microsecond
+		}
+		start := func(s kv, name, key string) {
+			wctx, cancel := context.WithCancel(ctx)
+			w := &rw{key: key, store: name, seen: map[string]uint64{}, cancel: cancel}
+			var n int64
+			wi := len(ws)
+			if err := s.watch(wctx, key, true, func(k string, v uint64) {
+				i := atomic.AddInt64(&n, 1)
+				if i <= 8 {
+					time.Sleep(pauses[(int(i)+wi*8)%len(pauses)]) // a slow consumer during the replay
+				}
+				w.mu.Lock()
+				if v > w.seen[k] {
+					w.seen[k] = v
+				}
+				w.mu.Unlock()
+			}); err != nil {
+				cancel()
+				c.Inconclusive("watch: " + err.Error())
+				return
+			}
+			ws = append(ws, w)
+		}
+		final := map[string]uint64{}
+		var fmu sync.Mutex
+		done := make(chan struct{})
+		order := r.Perm(len(keys))
+		delays := make([]time.Duration, len(keys))
+		for i := range delays {
+			delays[i] = time.Duration(r.Intn(2500)) * time.Microsecond
+		}
+		go func() {
+			defer close(done)
+			for i, ki := range order {
+				time.Sleep(delays[i])
+				k := keys[ki]
+				for attempt := 0; attempt < 20; attempt++ {
+					rc, err := b.get(ctx, k)
+					if err != nil {
+						continue
+					}
+					t := atomic.AddUint64(&tag, 1)
+					nr, err := b.update(ctx, rc, t, attempt%2 == 0)
+					if err == nil {
+						fmu.Lock()
+						final[k] = nr.ver
+						fmu.Unlock()
+						break
+					}
+				}
+			}
+		}()
+		start(a, "other store object", "")
+		start(b, "the writer's store object", "")
+		start(a, "other store object", keys[r.Intn(len(keys))])
+		start(b, "the writer's store object", keys[r.Intn(len(keys))])
+		<-done
+		c.Count("replay_race_rounds", 1)
+		deadline := time.Now().Add(10 * time.Second)
+		for {
+			missing := ""
+			for wi, w := range ws {
+				for _, k := range keys {
+					if w.key != "" && w.key != k {
+						continue
+					}
+					fmu.Lock()
+					fv := final[k]
+					fmu.Unlock()
+					w.mu.Lock()
+					got := w.seen[k]
+					w.mu.Unlock()
+					if got < fv {
+						missing = fmt.Sprintf("round %d: watcher %d (with replay, key=%q, on %s), which subscribed while the writer was updating every record once, has been shown version %d of %s; the version written during the round is %d", round, wi, w.key, w.store, got, k, fv)
+					}
+				}
+			}
+			if missing == "" {
+				break
+			}
+			if time.Now().After(deadline) {
+				key := "store/" + kind + "/replay-watcher-missed-write-made-during-replay"
+				if a.perWatchStream() {
+					key = "store/" + kind + "/watcher-subscribed-during-writes-missed-events"
+				}
+				c.Violate("watch", key, missing, nil)
+				for _, w := range ws {
+					w.cancel()
+				}
+				return
+			}
+			time.Sleep(time.Millisecond)
+		}
+		c.Count("replay_race_watchers_complete", int64(len(ws)))
+		for _, w := range ws {
+			w.cancel()
+		}
+	}
+	c.Distinct("history_shape", "replay-race/"+kind)
+}
+
 // c15V3Tx exercises the v3 transaction store: per-target logs, index uniqueness, List across targets, CAS, watch + cancel
 func c15V3Tx(c *fw.Case) {
 	client := test.NewClient()
@@ -971,14 +1192,14 @@ func c15SubscribeDuringWrites(c *fw.Case, attempts int) {
 }
 
 func init() {
-	kinds := []string{"v2/transaction", "v2/proposal", "v2/configuration", "v3/configuration"}
+	kinds := []string{"v2/transaction", "v2/proposal", "v2/configuration", "v3/configuration", "v3/transaction"}
 	fw.Register(&fw.Check{ID: "C15", Level: "exploration", Race: true,
 		Technique: "runtime monitoring under the Go race detector: concurrent create / get / update / update-status / watch / cancel histories by 4..7 client goroutines on 2..3 store objects of one Atomix cluster; porcupine linearizability check per key against a versioned compare-and-set register (unique tags identify writes); version / index monotonicity; counted watcher-completeness drain; abandoned and cancelled consumers",
 		Rule:      "each case = one history of ~300 operations on 3..5 keys for one store kind (v2 transaction, proposal, configuration; v3 configuration) or one v3 transaction-store scenario (per-target logs, racing status updates, List across targets, cancel while events flow); every tenth case is an in-vivo history of the whole system under the race detector (watcher completeness of the controllers' own watchers, race reports); distinct_nontrivial = distinct (store, keys, clients, store objects) shapes",
 		Assumptions: []string{"the Atomix in-memory test runtime is a faithful Atomix; watchers subscribed before the writers start are given 150 ms to register on every partition (the Atomix client returns from Events after the first partition's acknowledgement)",
 			"an operation that failed with an error other than conflict / already-exists / not-found is left out of the history (it may or may not have taken effect); none was observed in development"},
 		DistinctSet: "history_shape", CaseTimeout: 300e9,
-		Floors: map[string]int64{"operations": 8000, "histories_checked": 40, "live_watchers_complete": 150, "racing_update_pairs": 200, "stale_updates_refused": 1000, "updates_accepted": 1000, "in_vivo_histories": 5, "watcher_final_versions_checked": 100},
+		Floors: map[string]int64{"operations": 8000, "histories_checked": 40, "live_watchers_complete": 150, "racing_update_pairs": 200, "stale_updates_refused": 1000, "updates_accepted": 1000, "in_vivo_histories": 5, "watcher_final_versions_checked": 100, "replay_race_watchers_complete": 1000},
 		Cases: func(tier string) int {
 			if tier == "thorough" {
 				return 3000
@@ -1005,6 +1226,15 @@ func init() {
 			}
 			if c.Index%7 == 6 {
 				c15V3Tx(c)
+				return
+			}
+			if c.Index%7 == 5 {
+				for _, k := range kinds {
+					if !c.Violated() {
+						c15ReplayRace(c, k, 10)
+					}
+				}
+				c.Class("replay-race")
 				return
 			}
 			c15Run(c, kinds[c.Index%7%len(kinds)])
